@@ -78,47 +78,52 @@ def copyVal (src : List (String × Json)) (into : List (String × Json)) : List 
       | some i => if Json.equal i f then copyVal src into r else none
       | none => copyVal src (setKV n f into) r
 
+/-- lib/openssl/oct.c `jwk_make_execute` -/
+def makeOct (kvs : List (String × Json)) (rnd : Bs) : Option Json :=
+  match lookup "bytes" kvs with
+  | some (.int len) =>
+    if len ≤ 0 || len > (keymax : Int) then none
+    else some (.obj (setKV "k" (B64.enc (rnd.take len.toNat)) (delKV "bytes" kvs)))
+  | _ => none
+
+/-- lib/openssl/ec.c `jwk_make_execute` -/
+def makeEc (P : Prims) (kvs : List (String × Json)) (rnd : Bs) : Option Json :=
+  (optStr (.obj kvs) "crv").bind fun crvO =>
+    let crv := match crvO with | some c => c | none => "P-256"
+    (crvLen crv).bind fun _ =>
+    (P.ecGen crv rnd).bind fun (d, x, y) =>
+      (copyVal [("crv", .str crv), ("x", B64.enc x), ("y", B64.enc y), ("d", B64.enc d)] kvs ["crv", "x", "y", "d"]).map .obj
+
+/-- the public exponent requested: absent = 65537, base64url text or integer -/
+def rsaExp (kvs : List (String × Json)) : Option Nat :=
+  match lookup "e" kvs with
+  | none => some 65537
+  | some (.str s) => (B64.decode (B64.bytesOfString s)).map natOfBytes
+  | some (.int i) => if i < 0 then none else some i.toNat
+  | some _ => none
+
+/-- lib/openssl/rsa.c `jwk_make_execute` / `mkrsa` -/
+def rsaBits (kvs : List (String × Json)) : Option Int :=
+  (optInt (.obj kvs) "bits").bind fun bitsO =>
+    match bitsO with
+    | some b => if b > 2147483647 then none else some b     -- the 64-bit value; beyond INT_MAX refused
+    | none => some 2048
+
+def makeRsa (P : Prims) (kvs : List (String × Json)) (rnd : Bs) : Option Json :=
+  (rsaBits kvs).bind fun bits =>
+    if bits < 2048 then none else
+    (rsaExp kvs).bind fun ev =>
+    if !expOk ev then none else
+    (P.rsaGen bits.toNat ev rnd).bind fun ms =>
+      (copyVal (ms.map (fun (n, b) => (n, B64.enc b))) (delKV "e" (delKV "bits" kvs))
+        ["n", "e", "p", "d", "q", "dp", "dq", "qi"]).map .obj
+
 /-- the MAKE hooks, dispatched on "kty" -/
 def make (P : Prims) (jwk : Json) (rnd : Bs) : Option Json :=
   match jwk, jwk.getStr? "kty" with
-  | .obj kvs, some "oct" =>
-    (match lookup "bytes" kvs with
-     | some (.int len) =>
-       if len ≤ 0 || len > (keymax : Int) then none
-       else some (.obj (setKV "k" (B64.enc (rnd.take len.toNat)) (delKV "bytes" kvs)))
-     | _ => none)
-  | .obj kvs, some "EC" =>
-    (match optStr jwk "crv" with
-     | none => none
-     | some crvO =>
-       let crv := match crvO with | some c => c | none => "P-256"
-       match crvLen crv, P.ecGen crv rnd with
-       | some _, some (d, x, y) =>
-         (copyVal [("crv", .str crv), ("x", B64.enc x), ("y", B64.enc y), ("d", B64.enc d)] kvs ["crv", "x", "y", "d"]).map .obj
-       | _, _ => none)
-  | .obj kvs, some "RSA" =>
-    (match optInt jwk "bits" with
-     | none => none
-     | some bitsO =>
-       let bits : Int := match bitsO with | some b => toInt32 b | none => 2048
-       if bits < 2048 then none
-       else
-         let e : Option Nat :=
-           match lookup "e" kvs with
-           | none => some 65537
-           | some (.str s) => (B64.decode (B64.bytesOfString s)).map natOfBytes
-           | some (.int i) => some (i % 18446744073709551616).toNat
-           | some _ => none       -- the C dereferences a NULL BIGNUM here (finding F8)
-         match e with
-         | none => none
-         | some ev =>
-           if !expOk ev then none
-           else
-             match P.rsaGen bits.toNat ev rnd with
-             | none => none
-             | some ms =>
-               let src := ms.map (fun (n, b) => (n, B64.enc b))
-               (copyVal src (delKV "e" (delKV "bits" kvs)) ["n", "e", "p", "d", "q", "dp", "dq", "qi"]).map .obj)
+  | .obj kvs, some "oct" => makeOct kvs rnd
+  | .obj kvs, some "EC" => makeEc P kvs rnd
+  | .obj kvs, some "RSA" => makeRsa P kvs rnd
   | _, _ => none
 
 /-- inferred `key_ops` for an algorithm name (first registry entry with that name) -/
@@ -133,23 +138,33 @@ def opsFor (alg : String) : Option (List String) :=
      | _ => none)
   | none => none
 
+/-- key_ops inference: only when "alg" is present and neither "use" nor "key_ops" is -/
+def inferOps (kvs : List (String × Json)) (alg use : Option String) : List (String × Json) :=
+  match alg, use, lookup "key_ops" kvs with
+  | some a, none, none =>
+    (match opsFor a with
+     | some ops => setKV "key_ops" (.arr (ops.map .str)) kvs
+     | none => kvs)
+  | _, _, _ => kvs
+
+/-- the final check of `jose_jwk_gen`: every required member of the key type is present -/
+def complete (kty : String) (kvs : List (String × Json)) : Bool :=
+  match ktys.find? (fun t => t.kty == kty) with
+  | some t => t.req.all (fun m => (lookup m kvs).isSome)
+  | none => false
+
 /-- `jose_jwk_gen(cfg, jwk)`; `none` = false -/
 def gen (P : Prims) (jwk : Json) (rnd : Bs) : Option Json :=
   (prep jwk).bind fun j1 =>
   (make P j1 rnd).bind fun j2 =>
-  match j2, optStr j2 "alg", j2.getStr? "kty", optStr j2 "use" with
-  | .obj kvs, some alg, some kty, some use =>
-    let kvs' :=
-      match alg, use, lookup "key_ops" kvs with
-      | some a, none, none =>
-        (match opsFor a with
-         | some ops => setKV "key_ops" (.arr (ops.map .str)) kvs
-         | none => kvs)
-      | _, _, _ => kvs
-    match ktys.find? (fun t => t.kty == kty) with
-    | some t => if t.req.all (fun m => (lookup m kvs').isSome) then some (.obj kvs') else none
-    | none => none
-  | _, _, _, _ => none
+  match j2 with
+  | .obj kvs =>
+    (optStr j2 "alg").bind fun alg =>
+    (j2.getStr? "kty").bind fun kty =>
+    (optStr j2 "use").bind fun use =>
+      let kvs' := inferOps kvs alg use
+      if complete kty kvs' then some (.obj kvs') else none
+  | _ => none
 
 end Gen
 end Jose
